@@ -328,6 +328,22 @@ pub fn enumerate(family: &str, thorough: bool, f: &mut dyn FnMut(&str, Vec<u8>))
                 }
             }
         }
+        "long-tokens" => {
+            // a syntax error whose offending token is a long string or comment with one special character at every
+            // offset (messages quote, shorten and escape the offending text)
+            let chars = ["\u{e9}", "\u{20ac}", "\u{1F600}", "\u{85}", "\u{9f}", "\u{7f}", "\u{1b}", "\u{200b}", "\u{feff}", "\t"];
+            let max_pad = if thorough { 300 } else { 130 };
+            for ch in chars {
+                for pad in 0..max_pad {
+                    let body = format!("{}{}", "x".repeat(pad), ch);
+                    f("string-where-none-is-allowed", format!("FUNCTION_BLOCK F VAR x : INT ; END_VAR x := 1 '{}' ; END_FUNCTION_BLOCK", body).into_bytes());
+                    f("comment-where-none-is-allowed", format!("FUNCTION_BLOCK F VAR x : INT ; END_VAR x := INT(* {} *)#5 ; END_FUNCTION_BLOCK", body).into_bytes());
+                    f("string-with-invalid-escape", format!("FUNCTION_BLOCK F VAR s : STRING ; END_VAR s := '{}$ ' ; END_FUNCTION_BLOCK", body).into_bytes());
+                    f("comment-at-end-of-cut-text", format!("PROGRAM P VAR a : INT ; END_VAR a := 1 ; (* {} *)", body).into_bytes());
+                    f("identifier-where-none-is-allowed", format!("FUNCTION_BLOCK F VAR x : INT ; END_VAR x := 1 {}q ; END_FUNCTION_BLOCK", "y".repeat(pad)).into_bytes());
+                }
+            }
+        }
         "graphs" => {
             // reference graphs among declarations (C07's space): every digraph on up to 3 nodes in every realisation,
             // on 4 nodes as function blocks and as structures; analysis must end on cyclic input too
@@ -351,7 +367,7 @@ pub fn enumerate(family: &str, thorough: bool, f: &mut dyn FnMut(&str, Vec<u8>))
     }
 }
 
-pub const FAMILIES: [&str; 11] = ["edit1", "edit2", "bytes", "tokens", "nesting", "size", "literals", "bodies", "graphs", "truncate", "resources"];
+pub const FAMILIES: [&str; 12] = ["edit1", "edit2", "bytes", "tokens", "nesting", "size", "literals", "bodies", "graphs", "truncate", "resources", "long-tokens"];
 
 fn decode(bytes: &[u8]) -> String {
     match std::str::from_utf8(bytes) {
@@ -608,7 +624,7 @@ fn run_slice(family: &str, thorough: bool, start: usize, end: usize, stride: usi
 
 pub fn run(ctx: &mut Ctx) {
     let thorough = ctx.tier.thorough();
-    ctx.rule = "families: edit1 (every host x every token position x {delete, duplicate, swap, replace by / insert each lexeme of the alphabet}), edit2 (every pair of alphabet lexemes inserted at positions of small hosts), bytes (every byte string of length <= 2; thorough: length 3 over a 70-byte alphabet), tokens (every token string of length <= 2, spaced and abutting; thorough: length 3), nesting (19 constructors x depth 1..12 x {valid, bad core, missing closer}), size (18 inputs of ~64 KiB), literals (the C09 space and numeric extremes in 10 other positions); distinct = inputs are distinct by construction (counted); bodies (every string up to length 4, thorough 5, over the characters that are special inside a single- or double-quoted string, a comment, a duration, a based integer, a direct address, a number and a date-and-time literal, in that context); graphs (every reference graph among up to 4 declarations, cyclic ones included); truncate (every prefix of every host that ends after a lexeme, bare and followed by a line end, a comment, an opened comment, an opened string); resources (every file of compiler/resources/test as it is, cut after every line, and with every single line removed)".into();
+    ctx.rule = "families: edit1 (every host x every token position x {delete, duplicate, swap, replace by / insert each lexeme of the alphabet}), edit2 (every pair of alphabet lexemes inserted at positions of small hosts), bytes (every byte string of length <= 2; thorough: length 3 over a 70-byte alphabet), tokens (every token string of length <= 2, spaced and abutting; thorough: length 3), nesting (19 constructors x depth 1..12 x {valid, bad core, missing closer}), size (18 inputs of ~64 KiB), literals (the C09 space and numeric extremes in 10 other positions); distinct = inputs are distinct by construction (counted); bodies (every string up to length 4, thorough 5, over the characters that are special inside a single- or double-quoted string, a comment, a duration, a based integer, a direct address, a number and a date-and-time literal, in that context); graphs (every reference graph among up to 4 declarations, cyclic ones included); truncate (every prefix of every host that ends after a lexeme, bare and followed by a line end, a comment, an opened comment, an opened string); resources (every file of compiler/resources/test as it is, cut after every line, and with every single line removed); long-tokens (a syntax error at a string or comment of 1 to 130 characters, thorough 300, ending in a multi-byte, control or zero-width character)".into();
     ctx.assumptions.push(format!("each input runs tokenize, parse, and if it parses analyze and render, under catch_unwind on a thread with an 8 MiB stack in a worker process; budget {} s per input; the build has overflow checks and debug assertions on", BUDGET.as_secs()));
     ctx.assumptions.push("byte strings that are not UTF-8 are decoded as Latin-1 (the file reader falls back to Windows-1252, which differs only in 0x80-0x9F, all of which the lexer treats alike)".into());
     ctx.bounds.insert("alphabet_lexemes".into(), json!(alphabet().len()));
